@@ -64,13 +64,14 @@ type APtr struct {
 
 // Obj is an abstract memory object.
 type Obj struct {
-	key      string
-	symbolic bool // contents are symbolic fields keyed by key+path (parameter pointee / spilled parameter)
-	stores   map[string][]storeRec
-	alloc    *ssa.Alloc
-	escaped  bool
-	typ      types.Type
-	arrRoot  *Root // for array-typed allocs
+	key       string
+	symbolic  bool // contents are symbolic fields keyed by key+path (parameter pointee / spilled parameter)
+	stores    map[string][]storeRec
+	alloc     *ssa.Alloc
+	escaped   bool
+	typ       types.Type
+	arrRoot   *Root            // for array-typed allocs
+	arrFields map[string]*Root // array-typed fields written element-wise
 }
 
 type storeRec struct {
